@@ -353,6 +353,52 @@ fn tcp_part(seed: u64) -> Tally {
             send_frame(ctx, &mut v5, &consensus_handshake(outsider_val, Some(w.c.keys[2].public()), &vid5, genesis, false)).await.map_err(|e| anyhow::format_err!(e))?;
             let r = recv_frame(ctx, &mut v5).await;
             tally.lock().unwrap().expect("validator_inbound_wrong_signer", r.is_ok() || vadm(&w.c.keys[2]), false, "member's key claimed, signed by an outsider".into());
+            // a second connection authenticated as the same member is a duplicate: refused, the live one stays
+            let (mut v6, vid6) = adv_connect(ctx, vaddr, false).await.map_err(|e| anyhow::format_err!(e))?;
+            send_frame(ctx, &mut v6, &consensus_handshake(member, None, &vid6, genesis, false)).await.map_err(|e| anyhow::format_err!(e))?;
+            let _ = recv_frame(ctx, &mut v6).await;
+            let mut b1 = [0u8; 1];
+            let closed = tokio::time::timeout(Duration::from_secs(30), io::read_exact(ctx, &mut v6, &mut b1)).await.map(|r| !matches!(r, Ok(Ok(())))).unwrap_or(false);
+            tally.lock().unwrap().expect("validator_duplicate_identity", !closed, false, "a second connection authenticated as the same committee member while the first is alive".into());
+            tokio::time::sleep(Duration::from_millis(50)).await;
+            tally.lock().unwrap().expect("validator_live_connection_stays_registered", vadm(member), true, "after the refused duplicate the member's live connection is still in the pool".into());
+            drop(v6);
+
+            // ---------- validator network outbound: the node dials the address announced for member M
+            let vadv_l = TcpListener::bind("127.0.0.1:0").await.map_err(|e| anyhow::format_err!("{e}"))?;
+            let vadv_addr = vadv_l.local_addr().unwrap();
+            let dialled = &w.c.keys[2];
+            for (name, responder, want) in [("validator_outbound_honest_expected_peer", 0, true), ("validator_outbound_other_member", 1, false), ("validator_outbound_outsider", 2, false), ("validator_outbound_other_genesis", 3, false), ("validator_outbound_foreign_signature", 4, false)] {
+                let cfg_d = make_cfg(rng, 0, HashSet::new(), Some(w.c.keys[0].clone()));
+                let dg = nv::VGossip::new(cfg_d, mgr.clone(), Some(w.c.epoch));
+                let dv = nv::VConsensus::new(&dg).map_err(|e| anyhow::format_err!(e))?.expect("validator node");
+                let dv2 = dv.clone();
+                let peer = dialled.public();
+                let dial = s.spawn(async move {
+                    let _ = dv2.dial(ctx, &peer, vadv_addr).await;
+                    Ok(())
+                });
+                let (mut srv, sid) = adv_accept(ctx, &vadv_l).await.map_err(|e| anyhow::format_err!(e))?;
+                let _node_hs = recv_frame(ctx, &mut srv).await.map_err(|e| anyhow::format_err!(e))?;
+                let reply = match responder {
+                    0 => consensus_handshake(dialled, None, &sid, genesis, false),
+                    1 => consensus_handshake(&w.c.keys[1], None, &sid, genesis, false),
+                    2 => consensus_handshake(outsider_val, None, &sid, genesis, false),
+                    3 => consensus_handshake(dialled, None, &sid, other_genesis, false),
+                    _ => consensus_handshake(dialled, None, &sid, genesis, true),
+                };
+                send_frame(ctx, &mut srv, &reply).await.map_err(|e| anyhow::format_err!(e))?;
+                let registered = || !dv.outbound_keys().is_empty();
+                let got = if want {
+                    wait_for(30, registered).await
+                } else {
+                    tokio::time::sleep(Duration::from_millis(100)).await;
+                    registered()
+                };
+                tally.lock().unwrap().expect(name, got, want, "validator node dials the address announced for a committee member".into());
+                drop(srv);
+                let _ = dial.join(ctx).await;
+            }
             drop((v1, v2, v3, v4, v5, s10));
             Ok::<(), anyhow::Error>(())
         })
